@@ -53,6 +53,16 @@ func main() {
 	seed, _ := strconv.ParseInt(os.Getenv("VERIF_SEED"), 10, 64)
 
 	switch cmd {
+	case "mapworker":
+		defer func() {
+			if r := recover(); r != nil {
+				die(2, "HARNESS-ERROR mapworker %s: %v\n%s", arg, r, debug.Stack())
+			}
+		}()
+		if err := fw.ServeMap(arg, *tier); err != nil {
+			die(2, "HARNESS-ERROR mapworker: %v", err)
+		}
+		os.Exit(0)
 	case "worker":
 		ck := fw.Registry[arg]
 		if ck == nil {
